@@ -14,7 +14,8 @@ CFG = {
             "signal with sequences pending, full queue — replayed label by label on the LTS, incl. the drain steps of WaitClose and the quit arm "
             "of the blocking post), cycles with nocons=1 (no consumer, queue full from the start: the input goroutine blocked in its first post, "
             "Resume while the previous input goroutine is still alive), fullclose, sigclose (F53 / F13 schedules, now expected to return with "
-            "nothing left), sigsuspend (the application's Suspend against the kill-signal Close, both orders), dblclose, race (the post/suspend and dblclose schedules in a child built with -race); non-trivial = every schedule "
+            "nothing left), sigsuspend (the application's Suspend against the kill-signal Close, both orders), dblclose, lostkey (F3-like keys after a cursor-position query given up / answered / absent, control run as reference), sigblocked (kill signal while the input goroutine is blocked in a post), "
+            "contract (Resume's precondition violated: witness), race (the post/suspend, dblclose, sigsuspend and sigrender schedules in a child built with -race); non-trivial = every schedule "
             "line, distinct by its parameters",
     "trusted_base": ["the trace conditions checked by the driver for post schedules (per-poster order, no duplicate, nothing invented, no blocking post "
                      "missing) are the observable consequences of the queue LTS",
@@ -42,7 +43,13 @@ CFG = {
                   "suspLock of the LTS; only Resume keeps a side condition) (session_invariant). chQuit closed at most once in every reachable "
                   "state unconditionally. lock_order over all lock sites; goroutine / timer / mutex / lock-site / channel inventory complete (extractor).",
     "level_note": "Partial by nature: data-race freedom (Go memory model) is outside any Lean theorem; -race stress runs are supporting evidence for the "
-                  "correspondence only. Goroutine-leak freedom is a theorem of the LTS (goroutines done at rest) and checked on the real code by stack "
+                  "correspondence only. Round 4: the locking discipline IS a theorem over regenerated facts (extract/cmd/C10/protect.go: every access to a field of Vaxis / writer / Parser / spinner.Model "
+                  "with kind and mutexes held incl. call-site sets; goroutine roles by call graph): protected_by (which shared field is under which mutex / atomic), shared_fields_protected (the unprotected shared fields are EXACTLY "
+                  "the 12 of confinedBy, each with its reason), any_goroutine_api, roles_complete — a new unprotected access changes a Gen fact. Finding F410 (recorded): the Close run by the kill-signal arm / panic handler on the input "
+                  "goroutine is concurrent with the main goroutine's frame (writer.buf, cursorNext, cursorLast, charCache unprotected: Witness/F410; race group sigrender reports the pairs). "
+                  "Resume's side condition is an explicit precondition theorem (Props/C10Resume.resume_precondition; resume_after_close_leaves_goroutines and op `contract` show what happens without it); a kill signal that finds the "
+                  "input goroutine blocked in a post is decided outside the text (kill_signal_waits_for_the_consumer, served_signal_completes; op `sigblocked`). No-lost-event is also exercised for keys shaped like a cursor-position "
+                  "report around a query given up / answered / absent (op `lostkey`). Goroutine-leak freedom is a theorem of the LTS (goroutines done at rest) and checked on the real code by stack "
                   "dumps after every Suspend/Close of the cycles sessions and after fullclose / sigclose. Source facts the theorems need, pinned to "
                   "Gen/Conc.lean: statement order of Suspend, Resume clearing `suspended`, Close's test-and-set, and (round 3) the statement skeletons "
                   "of Parser.WaitClose / Close / emit / run's tail, PostEvent / PostEventBlocking and the input goroutine (waitclose_drains, "
